@@ -46,10 +46,18 @@ def gen_record(rng: random.Random, fmt: str):
     return rec
 
 
-def encode(rng, fmt, rec, kfmt=None):
+USER_MARKERS = ["hv", "XR"]
+
+
+def encode(rng, fmt, rec, kfmt=None, custom=False):
     """-> (line text, named record as the encoder wrote it: column contents incl. markers, value texts)"""
     rec = dict(rec)
     named_r = list(rec["r"])
+    if custom and fmt in ("kida", "naunet", "krome") and rng.random() < 0.6:
+        room = (kfmt.split(",").count("R") if fmt == "krome" else 3) - len(named_r)
+        if room > (1 if fmt == "kida" else 0):        # (KIDA keeps one column for the database's own marker)
+            named_r.insert(rng.randint(1, len(named_r)), rng.choice(USER_MARKERS))
+            rec["r"] = list(named_r)
     exempt = False
     if fmt == "kida":
         rec["code"] = rng.choice(KIDA_CODES)
@@ -94,7 +102,7 @@ def encode(rng, fmt, rec, kfmt=None):
                       "tmin": fl(float(vals[3])), "tmax": fl(float(vals[4])), "idx": -1, "code": rec["code"]}, exempt
     elif fmt == "naunet":
         rec["code"] = rng.choice([100, 101, 102, 110, 111, 120, 200, 201, 999])
-        line = encoders.native(rec)
+        line = encoders.native(dict(rec, r=named_r))
         vals = [f"{rec['a']:10.3e}", f"{rec['b']:10.3e}", f"{rec['c']:10.3e}", f"{rec['tmin']:9.2f}", f"{rec['tmax']:9.2f}"]
     elif fmt == "krome":
         tt, tv = rng.choice(KROME_T)
@@ -112,11 +120,12 @@ def encode(rng, fmt, rec, kfmt=None):
     return line, named, exempt
 
 
-def gen_file(rng: random.Random, fmt: str):
+def gen_file(rng: random.Random, fmt: str, custom: bool = False):
     lines, text, exempt = [], [], []
     kfmt = "idx,R,R,R,P,P,P,P,P,Tmin,Tmax,rate"
     if fmt == "krome":
-        text.append("@format:" + kfmt)
+        kfmt = rng.choice([kfmt, kfmt, "idx,R,R,P,P,Tmin,Tmax,rate", "R,R,P,P,Tmin,Tmax,rate", "rate,idx,R,R,P,P", "Tmin,Tmax,R,P,P,rate"])
+        text.append("@format:" + (kfmt.lower() if rng.random() < 0.4 else kfmt))
         lines.append({"cls": "format", "rec": DUMMY})
     for _ in range(rng.randint(1, 8)):
         roll = rng.random()
@@ -133,8 +142,10 @@ def gen_file(rng: random.Random, fmt: str):
             text.append(rng.choice(["@var:ncolH=1.0d21", "@common:user_crate,user_Av"]))
             lines.append({"cls": "var", "rec": DUMMY})
         elif fmt == "krome" and roll < 0.5:
-            kfmt = rng.choice(["idx,R,R,P,P,Tmin,Tmax,rate", "idx,R,R,R,P,P,P,P,P,Tmin,Tmax,rate", "idx,R,P,P,rate", "R,R,P,P,P,rate"])
-            text.append("@format:" + kfmt)
+            kfmt = rng.choice(["idx,R,R,P,P,Tmin,Tmax,rate", "idx,R,R,R,P,P,P,P,P,Tmin,Tmax,rate", "idx,R,P,P,rate", "R,R,P,P,P,rate",
+                               "R,R,P,P,Tmin,Tmax,rate", "rate,idx,R,R,P,P", "Tmin,Tmax,R,P,P,rate"])
+            # the column keywords are case-insensitive in KROME files
+            text.append("@format:" + (kfmt.lower() if rng.random() < 0.4 else kfmt))
             lines.append({"cls": "format", "rec": DUMMY})
         else:
             rec = gen_record(rng, fmt)
@@ -142,7 +153,7 @@ def gen_file(rng: random.Random, fmt: str):
                 cols = kfmt.split(",")
                 rec["r"] = rec["r"][: cols.count("R")]
                 rec["p"] = rec["p"][: cols.count("P")]
-            line, named, ex = encode(rng, fmt, rec, kfmt)
+            line, named, ex = encode(rng, fmt, rec, kfmt, custom)
             text.append(line)
             lines.append({"cls": "data", "rec": named})
             exempt.append(ex)
@@ -172,18 +183,24 @@ def main(ctx: Ctx) -> int:
     n = 25 if ctx.quick else 3000
     for fmt in ("kida", "umist", "leeds", "uclchem", "krome", "naunet"):
         for k in range(n):
-            text, lines, exempt = gen_file(rng, fmt)
+            custom = fmt in ("kida", "naunet", "krome") and k % 5 == 4      # a network that declares its own marker tokens
+            text, lines, exempt = gen_file(rng, fmt, custom)
             f = ctx.sub("in") / f"{fmt}_{k}.txt"
             f.write_text(text)
             obs = {"ok": True, "reactions": [], "err": ""}
             try:
-                net = Network(filelist=str(f), fileformats=fmt)
+                from naunet.species import Species
+                # (no reset BEFORE a network with its own lists: a user process does not call one either; the lists are restored afterwards)
+                kw = {"elements": list(Species.default_elements), "pseudo_elements": list(Species.default_pseudoelements) + USER_MARKERS} if custom else {}
+                net = Network(filelist=str(f), fileformats=fmt, **kw)
                 for x in net.reaction_list:
                     obs["reactions"].append({"r": [s.name for s in x.reactants], "p": [s.name for s in x.products], "a": fl(x.alpha), "b": fl(x.beta),
                                              "c": fl(x.gamma), "tmin": fl(x.temp_min), "tmax": fl(x.temp_max), "idx": x.idxfromfile,
                                              "ty": int(x.reaction_type) if x.reaction_type is not None else -1})
             except Exception as e:   # noqa
                 obs = {"ok": False, "reactions": [], "err": f"{type(e).__name__}: {str(e)[:100]}"}
+            if custom:
+                Species.reset()
             ndata = sum(1 for ln in lines if ln["cls"] == "data")
             traces.append({"tid": len(traces) + 1, "fmt": fmt, "file": lines, "obs": obs, "window_exempt": exempt + [False] * (len(obs["reactions"]) + ndata),
                            "text": text})
